@@ -143,7 +143,7 @@ def norm_stmt(node: ast.AST) -> str:
         return type(node).__name__
 
 
-def share_rule(rep, model, rule_fn, new_rule: str, text: str, only_rules=None):
+def share_rule(rep, model, rule_fn, new_rule: str, text: str, only_rules=None, keep=None):
     """Run a rule of another property and record its obligations under ``new_rule`` of this one
     (several properties rest on the same structural fact; each check must catch a break of it on its own)."""
     from ..report import Report
@@ -152,6 +152,8 @@ def share_rule(rep, model, rule_fn, new_rule: str, text: str, only_rules=None):
     rep.rule(new_rule, text)
     for o in sub.obligations:
         if only_rules is not None and o["rule"] not in only_rules:
+            continue
+        if keep is not None and not keep(o):
             continue
         o = dict(o)
         o["note"] = (o.get("note", "") + f" [shared rule {o['rule']}]").strip()
